@@ -122,17 +122,34 @@ def coq_setup():
     return out
 
 
-def coq_forbidden_scan():
-    """grep the whole development for axioms / admits (comments are stripped first)."""
+def coq_deps_closure(pid):
+    """.v files Properties_<pid>.v transitively depends on (inside the development), itself included."""
+    seen, todo = set(), ["Properties_%s.v" % pid, "Extract_%s.v" % pid.lower()]
+    while todo:
+        f = todo.pop()
+        if f in seen or not os.path.exists(os.path.join(COQ, f)):
+            continue
+        seen.add(f)
+        txt = strip_coq_comments(open(os.path.join(COQ, f), errors="replace").read())
+        for d in re.findall(r"From\s+CgnsV\s+Require\s+(?:Import\s+|Export\s+)?([^.]*)\.", txt):
+            for m in d.split():
+                todo.append(m + ".v")
+        for d in re.findall(r"Require\s+(?:Import\s+|Export\s+)?((?:CgnsV\.\w+\s*)+)\.", txt):
+            for m in d.split():
+                todo.append(m.split(".")[-1] + ".v")
+    return sorted(seen)
+
+
+def coq_forbidden_scan(pid=None):
+    """grep the development (or, with pid, everything Properties_<pid>.v / Extract_<pid>.v depend on) for
+    axioms / admits / disabled checks; comments are stripped first."""
     hits = []
-    for dp, dn, fn in os.walk(COQ):
-        for f in fn:
-            if f.endswith(".v"):
-                txt = open(os.path.join(dp, f), errors="replace").read()
-                txt = strip_coq_comments(txt)
-                for i, l in enumerate(txt.split("\n")):
-                    if FORBIDDEN.search(l):
-                        hits.append("%s:%d:%s" % (f, i + 1, l.strip()))
+    files = coq_deps_closure(pid) if pid else sorted(f for f in os.listdir(COQ) if f.endswith(".v"))
+    for f in files:
+        txt = strip_coq_comments(open(os.path.join(COQ, f), errors="replace").read())
+        for i, l in enumerate(txt.split("\n")):
+            if FORBIDDEN.search(l):
+                hits.append("%s:%d:%s" % (f, i + 1, l.strip()))
     return hits
 
 
